@@ -61,3 +61,11 @@ M("c13-statistics-record-fields-swapped", "C13", MEM, "MemoryObjectStreamStatist
   "    open_send_streams: int  #: number of unclosed clones of the send stream\n    open_receive_streams: int  #: number of unclosed clones of the receive stream\n",
   "    open_receive_streams: int  #: number of unclosed clones of the receive stream\n    open_send_streams: int  #: number of unclosed clones of the send stream\n", ["R13-a"])
 M("c13-pending-cancellation-walk-own-shield-only", "C13", A, "CancelScope._effectively_cancelled", "            if cancel_scope.shield:\n                return False", "            if self.shield:\n                return False", ["R13-e"])
+
+# from seeded change C13/h (round 4)
+M("c13-last-receive-close-wakes-receivers", "C13", MEM, "MemoryObjectReceiveStream.close",
+  "                for event in send_events:\n                    event.set()\n",
+  "                for event in send_events:\n                    event.set()\n\n                receive_events = list(self._state.waiting_receivers.keys())\n                self._state.waiting_receivers.clear()\n                for event in receive_events:\n                    event.set()\n", ["R13-f"])
+M("c13-last-receive-close-sets-receiver-events", "C13", MEM, "MemoryObjectReceiveStream.close",
+  "                for event in send_events:\n                    event.set()\n",
+  "                for event in send_events:\n                    event.set()\n\n                for event in list(self._state.waiting_receivers):\n                    event.set()\n", ["R13-f"])
